@@ -144,6 +144,9 @@ class C20:
         CTX.chain = self.chain
         CTX.network = self.network
         CTX.behave = self.behave
+        self.layer = world.arm_params.get('layer', 'stub')
+        CTX.ctor_faults = self.layer == 'stub'
+        self.ctor_fault_p = ch.pick('ctor_fault_p', [0.0, 0.0, 0.08, 0.2]) if self.layer == 'stub' else 0.0
         CTX.on_call = self.on_call
         CTX.views = {p: View(lag=self.lags[p], mempool=not self.nomempool[p]) for p in range(self.k)}
         CTX.fee_base = {p: ch.pick('feebase', [20000, 5000, 150000, 900, 4000000]) for p in range(self.k)}
@@ -247,6 +250,10 @@ class C20:
             if method == self.assign_method:
                 kind = self.assign[pid]
                 return self._fault(kind, pid, method, args, enumerated=True)
+            return ('ok', None)
+        if method == '__init__':
+            if self.mode == 'faulty' and self.fault_rate and self.ctor_fault_p and ch.coin('pf_ctor', self.ctor_fault_p):
+                return ('raise', 'ClientError')
             return ('ok', None)
         if self.mode == 'down':
             return ('raise', 'ClientError')
